@@ -13,7 +13,7 @@
 //!            links[{len m, elevs[[o m,e/64 m]], hd[[o m, h/256 rad]]}], cars[{n,len,mass,freight,axles,rot,
 //!            bearing/4 N,rolling/1024,davis_b/4096 s/m,cda/16 m2}], train_mass?, c0, consist{units,pdct},
 //!            t[] (1/4 s), v[] (1/2 m/s); optional x0 [m] (front starts mid-route), tinit:"default" (initial clock 0 s
-//!            instead of t[0]), days; consist units of kind conv | bel (avh::build toy units) | hybrid (shipped default)
+//!            instead of t[0]), vinit:"default" (initial speed 0 instead of v[0]: rolling start), days; consist units of kind conv | bel (avh::build toy units) | hybrid (shipped default)
 //!  "sl"      realistic-scale speed-limited run on a generated single line (tolerance mode)
 //!
 //! Projection (abstraction function) of the toy-scale records — divisions by constants / logged fields only:
@@ -99,11 +99,20 @@ fn car_rv(c: &Value, name: &str, c0: f64, vmax: f64) -> RailVehicle {
 /// The shipped default hybrid locomotive (MW scale: HybridLoco hard-codes a 50 kW generator aux load, so it cannot be
 /// scaled down) with its top-level mass set to an integer so that the train stays toy scale.
 fn hybrid_loco(p: &Value) -> anyhow::Result<Locomotive> {
-    let mut l = build::patched(
-        &Locomotive::default_hybrid_electric_loco(),
-        &[("mass", json!(iv(p, "mass", 1024) as f64)), ("ballast_mass", Value::Null), ("baseline_mass", Value::Null),
-          ("mu", Value::Null), ("force_max", json!(1.0e6))],
-    )?;
+    let mut patches = vec![
+        ("mass", json!(iv(p, "mass", 1024) as f64)), ("ballast_mass", Value::Null), ("baseline_mass", Value::Null),
+        ("mu", Value::Null), ("force_max", json!(1.0e6)),
+    ];
+    // "rres" [W]: a small battery rating, so that toy-scale braking exceeds the regeneration capability and the rest
+    // goes to the hybrid's dynamic brake (engine, generator and drivetrain stay MW scale); its aux load is then set
+    // by "aux" [W] (0: the hybrid publishes charge_max + aux as regeneration but charges with aux 0, which a small
+    // battery asked for its full capability would refuse)
+    if let Some(r) = p.get("rres").and_then(|x| x.as_f64()) {
+        patches.push(("loco_type.HybridLoco.res.pwr_out_max_watts", json!(r)));
+        patches.push(("pwr_aux_offset", json!(iv(p, "aux", 0) as f64)));
+        patches.push(("pwr_aux_traction_coeff", json!(0.0)));
+    }
+    let mut l = build::patched(&Locomotive::default_hybrid_electric_loco(), &patches)?;
     // mid-window state of charge: the default sits at the top of the window where the hybrid refuses any regeneration
     if let altrios_core::consist::locomotive::PowertrainType::HybridLoco(h) = &mut l.loco_type {
         h.res.state.soc = uc::R * (iv(p, "soc_pct", 50) as f64 / 100.0);
@@ -250,11 +259,13 @@ fn run_ss(desc: &Value, tr: &mut Tracer) -> anyhow::Result<()> {
     );
     // the initial state agrees with the first trace point in speed, and in time unless "tinit":"default" asks for
     // the default clock (0 s) under a trace whose clock starts elsewhere; "x0" [m] places the front mid-route
+    // "vinit":"default": rolling start, the train state keeps the default speed 0 under a trace that starts at v[0] != 0
+    let v0sync = desc.get("vinit").and_then(|x| x.as_str()) != Some("default");
     let t0sync = desc.get("tinit").and_then(|x| x.as_str()) != Some("default");
     let init = InitTrainState::new(
         if t0sync { Some(uc::S * (tq[0] as f64 / ST)) } else { None },
         desc.get("x0").and_then(|x| x.as_f64()).map(|x| uc::M * x),
-        Some(uc::MPS * (vq[0] as f64 / SV)),
+        if v0sync { Some(uc::MPS * (vq[0] as f64 / SV)) } else { None },
     );
     let tsb = TrainSimBuilder::new("t".into(), tc.clone(), con, None, None, Some(init));
     let (mut sim, _tp, parts_path, parts_res, parts_brake) = match tsb.make_set_speed_train_sim_and_parts(&net, &route, st, Some(1)) {
@@ -291,7 +302,7 @@ fn run_ss(desc: &Value, tr: &mut Tracer) -> anyhow::Result<()> {
         "override": desc.get("train_mass").and_then(|x| x.as_i64()).unwrap_or(-1),
         "con_mass": q.q(con_mass, 1.0), "towed": q.q(towed, 1.0),
         "len": q.q(sim.state.length.value, SO),
-        "tt": tq, "tv": vq, "exact": q.exact, "t0sync": t0sync,
+        "tt": tq, "tv": vq, "exact": q.exact, "t0sync": t0sync, "v0sync": v0sync || vq[0] == 0,
     }));
     tr.emit(ss_step_json(0, &sim.state, &sim.loco_con, towed));
     let mut steps = 0usize;
@@ -369,6 +380,9 @@ fn expand_locate(desc: &Value) -> Value {
     }
     if sel % 3 == 1 {
         d["tinit"] = json!("default");
+    }
+    if sel % 4 == 1 {
+        d["vinit"] = json!("default"); // the 8 m/s replay as a rolling start under the default initial state
     }
     d
 }
@@ -530,7 +544,7 @@ fn run_sl(desc: &Value, tr: &mut Tracer) -> anyhow::Result<()> {
         .collect();
     tr.emit(json!({"ev":"Hdr","mode":"sl","st":LT as i64,"sv":LV as i64,"so":LO as i64,
         "links":hl,"curves":[],"cars":[],"override":-1,"con_mass":0,"towed":0,
-        "len": qi(sim.state.length.value, LO),"tt":[],"tv":[],"exact":false,"t0sync":true,"days":days}));
+        "len": qi(sim.state.length.value, LO),"tt":[],"tv":[],"exact":false,"t0sync":true,"v0sync":true,"days":days}));
     tr.emit(sl_step_json(0, &sim.state, &sim.loco_con));
     let cap = gi(desc, "cap") as usize;
     let mut steps = 0usize;
@@ -662,8 +676,15 @@ fn gen_ss(r: &mut Rng, neg: bool) -> Value {
         if units.len() >= 3 || r.chance(1, 3) {
             units.pop();
         }
-        units.push(json!({"kind":"hybrid","mass":1024}));
+        if r.chance(1, 2) {
+            units.push(json!({"kind":"hybrid","mass":1024}));
+        } else {
+            units.push(json!({"kind":"hybrid","mass":1024,"rres": *r.pick(&[8192i64, 16384, 32768, 65536]),"aux":0}));
+        }
     }
+    let has_hybrid = units.iter().any(|u| u["kind"] == "hybrid");
+    // hard braking (up to 1 m/s2): beyond the regeneration capability of small batteries
+    let hard = if has_hybrid { r.chance(2, 3) } else { r.chance(1, 6) };
     // start: front at the train's own length (default) or mid-route
     let x0 = if r.chance(1, 3) { tlen + r.range(1, ((total - tlen - 16) / 2).max(1)) } else { tlen };
     // trace: irregular dyadic time stamps, |accel| <= 1/2 m/s2, speeds in 1/2 m/s, inside the path
@@ -684,7 +705,8 @@ fn gen_ss(r: &mut Rng, neg: bool) -> Value {
         let dtq = if cruise { *r.pick(&[4i64, 8]) } else { *r.pick(&[1i64, 2, 4, 4, 8, 8, 16]) };
         let amax = dtq / 4; // |dv| <= 1/2 m/s2 x dt
         let v0 = *v.last().unwrap();
-        let mut dv = (target - v0).clamp(-amax, amax);
+        let bmax = if hard { dtq / 2 } else { amax };
+        let mut dv = (target - v0).clamp(-bmax, amax);
         if cruise {
             dv = dv / 2 * 2;
         }
@@ -715,6 +737,10 @@ fn gen_ss(r: &mut Rng, neg: bool) -> Value {
     }
     if tinit_default {
         d["tinit"] = json!("default");
+    }
+    // rolling start under the default initial state (speed 0) in half of the traces that start moving
+    if d["v"][0].as_i64().unwrap() > 0 && r.chance(1, 2) {
+        d["vinit"] = json!("default");
     }
     d["days"] = json!(*r.pick(&[1i64, 7, 30, 365, 1461]));
     d
